@@ -1,9 +1,10 @@
 """Registry: which suites, oracles and trusted-base notes belong to which property."""
-from suites import gens, system, tower
+from suites import gens, system, tower, timing
 
 
 def c01_suites(tier):
-    return [gens.PermuteSuite(), gens.StartRowSuite(), gens.GenHistorySuite(), gens.MethodRowsSuite()]
+    return [gens.PermuteSuite(), gens.StartRowSuite(), gens.GenHistorySuite(), gens.MethodRowsSuite(),
+            system.GateSuite(), system.StartStopSuite()]
 
 
 def c02_suites(tier):
@@ -11,7 +12,7 @@ def c02_suites(tier):
 
 
 def c03_suites(tier):
-    return [gens.PermuteSuite(), gens.GenHistorySuite(), gens.MethodRowsSuite()]
+    return [gens.PermuteSuite(), gens.GenHistorySuite(), gens.MethodRowsSuite(), system.GateSuite()]
 
 
 def c04_suites(tier):
@@ -50,6 +51,26 @@ def c09_suites(tier):
     return [system.WaitSuite(), system.RhythmSessionSuite()]
 
 
+def c11_suites(tier):
+    return [timing.AloneSuite(), system.RhythmSessionSuite()]
+
+
+def c12_suites(tier):
+    return [timing.TempoSuite(), system.RhythmSessionSuite()]
+
+
+def c13_suites(tier):
+    return [timing.InertiaOneSuite(), timing.OutlierSuite(), system.RhythmSessionSuite()]
+
+
+def c14_suites(tier):
+    return [timing.HoldUpSuite(), timing.OriginSuite(), system.RhythmSessionSuite()]
+
+
+def c15_suites(tier):
+    return [timing.PullOffSuite(), system.RhythmSessionSuite()]
+
+
 PROPS = {
     "C01": {"suites": c01_suites},
     "C02": {"suites": c02_suites},
@@ -60,6 +81,11 @@ PROPS = {
     "C07": {"suites": c07_suites},
     "C08": {"suites": c08_suites},
     "C09": {"suites": c09_suites},
+    "C11": {"suites": c11_suites},
+    "C12": {"suites": c12_suites},
+    "C13": {"suites": c13_suites},
+    "C14": {"suites": c14_suites},
+    "C15": {"suites": c15_suites},
     "C16": {"suites": c16_suites},
     "C17": {"suites": c17_suites},
     "C20": {"suites": c20_suites},
